@@ -8,4 +8,7 @@ PROP = {
          'Stringers and errors, unencodable reflected values); non-trivial = ≥2 fields+With levels; distinct = distinct canonical op JSON',
  'assumptions': ['strconv float text, time.Format text, base64 text and encoding/json output of reflected values are opaque leaves supplied by the harness (stdlib only)',
                  'sub-encoder functions are parameters: the op carries what each configured function appended, observed on a recording PrimitiveArrayEncoder'],
+ 'technique': "Lean 4: console line shape by case analysis over all presence patterns; spaced context proved to parse to the same tree as the JSON encoder's (marked-tree induction); tie: byte-level correspondence",
+ 'level_text': "console_shape and ctx_valid hold for every configuration and field tree of the model; bytes are compared with the real console encoder and the context with the real JSON encoder's output for the same fields.",
+ 'level_note': 'Column texts are fmt.Fprint of what the sub-encoders appended (parameters).',
 }
